@@ -573,7 +573,10 @@ impl AtomicPosition {
         let (new, remainder) = ((diff / INTERVAL), (diff % INTERVAL));
         // We add `new` to `capacity`, subtract one for returning `true` from here,
         // then make sure it does not exceed a maximum of `MAX_BURST`.
-        capacity = Ord::min(MAX_BURST as u128, (capacity as u128) + (new as u128) - 1) as u8;
+        let refilled = (capacity as u128) + (new as u128) - 1;
+        capacity = Ord::min(MAX_BURST as u128, refilled) as u8;
+        // A full bucket cannot bank time (see `RateLimiter::allow`)
+        let remainder = if refilled >= MAX_BURST as u128 { 0 } else { remainder };
 
         // Then, we just store `capacity` and `prev` atomically for the next iteration
         self.capacity.store(capacity, Ordering::Release);
